@@ -805,15 +805,17 @@ impl MasterSession {
                     x?;
                     match reader.pop_response() {
                         Some(TransportResponse::Response(addr, response)) => {
+                            // not the answer to the link status request: process it and keep waiting
                             self.notify_link_activity(addr.link);
                             self.handle_fragment_while_idle(io, writer, addr, response).await?;
-                            return Err(TaskError::UnexpectedResponseHeaders);
                         }
                         Some(TransportResponse::LinkLayerMessage(msg)) => {
                             self.notify_link_activity(msg.source);
-                            return Ok(());
+                            if msg.source == destination.link {
+                                return Ok(());
+                            }
                         }
-                        Some(TransportResponse::Error(_)) => return Err(TaskError::UnexpectedResponseHeaders),
+                        Some(TransportResponse::Error(_)) => continue, // ignore the malformed response
                         None => continue,
                     }
                 }
